@@ -218,6 +218,14 @@ impl<'a> WireFormat<'a> for TXT<'a> {
     }
 }
 
+#[cfg(simple_dns_verif)]
+impl<'a> TXT<'a> {
+    /// verification hook: raw bytes of every character string, in order
+    pub fn verif_strings(&self) -> Vec<&[u8]> {
+        self.strings.iter().map(|s| &s.data[..]).collect()
+    }
+}
+
 #[cfg(test)]
 mod tests {
     use crate::{rdata::RData, ResourceRecord};
